@@ -87,7 +87,9 @@ TYPES: Dict[str, Dict[str, Any]] = {
         py=dt.date, sym=dict(a=dt.date(1969, 12, 31), b=dt.date(2000, 1, 1), c=dt.date(2024, 2, 29)),
         lits=dict(lt_a=dt.date(1900, 1, 1), a=dt.date(1969, 12, 31), ab=dt.date(1970, 1, 1), b=dt.date(2000, 1, 1),
                   bc=dt.date(2010, 5, 5), c=dt.date(2024, 2, 29), gt_c=dt.date(9999, 12, 31)),
-        wrong=dict(wt_datetime=dt.datetime(2000, 1, 1), wt_str="2000-01-01", wt_int=10957), other=dt.date(9999, 12, 31)),
+        wrong=dict(wt_datetime=dt.datetime(2000, 1, 1), wt_datetime_noon=dt.datetime(2000, 1, 1, 12, 0, 0),
+                   wt_datetime_eve=dt.datetime(1969, 12, 31, 23, 59, 59), wt_str="2000-01-01", wt_int=10957),
+        other=dt.date(9999, 12, 31)),
     "timestamp": dict(
         py=dt.datetime,
         sym=dict(a=dt.datetime(1969, 12, 31, 23, 59, 59, 999999), b=dt.datetime(2000, 1, 1),
@@ -794,8 +796,61 @@ def mixed_roundtrip_worker(payload: Tuple[str, int]) -> Dict[str, Any]:
     return rep.part()
 
 
+def large_roundtrip_worker(payload: Tuple[str, int]) -> Dict[str, Any]:
+    """(b, batched writes) append_records hands the records to the file writer in slices of 1000: every size at and
+    around the slice boundaries x every placement of the smallest and the largest value on a slice edge - the recorded
+    bounds must be those of the whole file (an end-to-end pruned scan is compared with the unpruned one as well)."""
+    import datashard.filters as F
+
+    tier, seed = payload
+    rep = Report(PROP, tier, seed, "exploration")
+    sizes = (1000, 1001, 2001) if tier == "quick" else (999, 1000, 1001, 2000, 2001, 3001)
+    edges = (0, 999, 1000, 1999, 2000, 3000)
+    for n in sizes:
+        pos = [p for p in edges if p < n] + ([n - 1] if n - 1 not in edges else [])
+        for pmin in pos:
+            for pmax in pos:
+                if pmin == pmax:
+                    continue
+                t = _new_table(f"c13-large-{n}-{pmin}-{pmax}", "long")
+                vals = [0] * n
+                vals[pmin], vals[pmax] = -5, 5
+                t.append_records([{"k": j, "c": v, "o": None} for j, v in enumerate(vals)])
+                dfs = t._get_all_data_files()
+                if len(dfs) != 1:
+                    raise HarnessError(f"large roundtrip: {len(dfs)} files")
+                lbs, ubs = dfs[0].lower_bounds or {}, dfs[0].upper_bounds or {}
+                got = (lbs.get(C_ID), ubs.get(C_ID), lbs.get(K_ID), ubs.get(K_ID))
+                rep.add("evaluations")
+                rep.add("roundtrip_bounds_batched_files")
+                rep.nontrivial(("rt-large", n, pmin, pmax))
+                if got != (-5, 5, 0, n - 1):
+                    rep.violation({"part": "roundtrip", "type": "long", "case": "file_written_in_several_batches", "side": "both",
+                                   "problem": "value"},
+                                  {"rows": n, "position_of_min": pmin, "position_of_max": pmax,
+                                   "decoded(c_lo,c_hi,k_lo,k_hi)": repr(got), "expected": repr((-5, 5, 0, n - 1))})
+                for fd in ({"c": ("==", -5)}, {"c": (">", 0)}, {"k": ("<", 1)}):
+                    pruned = _canon_rows(t.scan(filter=fd))
+                    real = F.prune_files_by_bounds
+                    F.prune_files_by_bounds = lambda files, *a, **k: list(files)
+                    try:
+                        full = _canon_rows(t.scan(filter=fd))
+                    finally:
+                        F.prune_files_by_bounds = real
+                    rep.add("evaluations")
+                    if len(full) != 1:
+                        raise HarnessError(f"large roundtrip: unpruned scan {fd} returned {len(full)} rows")
+                    if pruned != full:
+                        rep.violation({"part": "e2e", "type": "long", "case": "file_written_in_several_batches", "problem": "rows_lost"},
+                                      {"rows": n, "position_of_min": pmin, "position_of_max": pmax, "filter": repr(fd),
+                                       "pruned_rows": len(pruned), "unpruned_rows": len(full)})
+    return rep.part()
+
+
 def _worker(payload: Tuple) -> Dict[str, Any]:
     kind = payload[0]
+    if kind == "rtlarge":
+        return large_roundtrip_worker(payload[1:])
     if kind == "dec":
         return decision_worker(payload[1:])
     if kind == "rt":
@@ -837,6 +892,7 @@ def run(tier: str, seed: int) -> Report:
         payloads.append(("dec", tname, tier, seed, max_size))
         payloads.append(("rt", tname, tier, seed))
     payloads.append(("rtmix", tier, seed))
+    payloads.append(("rtlarge", tier, seed))
     e2e_types = QUICK_E2E_TYPES if tier == "quick" else ALL_TYPES
     per = 2 if tier == "quick" else 3
     for tname in e2e_types:
